@@ -813,13 +813,22 @@ def c16_e2e(res, wd, cases, replay_file=None):
             open(os.path.join(ed, "uevent"), "w").write("MAJOR=13\nMINOR=%d\nDEVNAME=input/event%d\n" % (64 + i, i))
             nodes.append("/dev/input/event%d" % i)
         exargs = " ".join("--exclude '%s'" % p for p in c["excludes"])
-        setup = ("mount --bind %s/devices /proc/bus/input/devices && mount --bind %s/sys /sys/devices && mount -t tmpfs tmpfs /dev && mkdir /dev/input && touch %s /dev/input/none; "
-                 % (d, d, " ".join(nodes) if nodes else "/dev/input/none"))
+        # every node also gets a second name: a symlink under /dev/input/by-id, and a spelling with a doubled slash
+        links = ["/dev/input/by-id/usb-dev%d-event-kbd" % i for i in range(len(nodes))]
+        setup = ("mount --bind %s/devices /proc/bus/input/devices && mount --bind %s/sys /sys/devices && mount -t tmpfs tmpfs /dev && mkdir -p /dev/input/by-id && touch %s /dev/input/none; %s "
+                 % (d, d, " ".join(nodes) if nodes else "/dev/input/none", " ".join("ln -s ../event%d %s;" % (i, l) for i, l in enumerate(links))))
         a = subprocess.run(["unshare", "-m", "sh", "-c", setup + "%s remap --verbose --default-layout caps-q-for-esc --all-keyboards %s" % (binp, exargs)],
                            stdout=subprocess.PIPE, stderr=subprocess.PIPE, text=True, timeout=60)
         dv = " ".join("--dev-file %s" % n for n in nodes)
         b = subprocess.run(["unshare", "-m", "sh", "-c", setup + "%s remap --verbose --default-layout caps-q-for-esc --only-if-keyboard %s %s" % (binp, exargs, dv)],
                            stdout=subprocess.PIPE, stderr=subprocess.PIPE, text=True, timeout=60) if nodes else None
+        # the same devices named by symlink / with a doubled slash
+        alt = [links[i] if i % 2 == 0 else n.replace("/dev/input/", "/dev//input/") for i, n in enumerate(nodes)]
+        b2 = subprocess.run(["unshare", "-m", "sh", "-c", setup + "%s remap --verbose --default-layout caps-q-for-esc --only-if-keyboard %s %s" % (binp, exargs, " ".join("--dev-file %s" % n for n in alt))],
+                            stdout=subprocess.PIPE, stderr=subprocess.PIPE, text=True, timeout=60) if nodes else None
+        # list_keyboards: name: path of every keyboard outside the virtual tree (no exclusion on this path)
+        lk = subprocess.run(["unshare", "-m", "sh", "-c", setup + "%s list_keyboards" % binp], stdout=subprocess.PIPE, stderr=subprocess.PIPE, text=True, timeout=60)
+        listed = [l.rsplit(": ", 1)[1] for l in lk.stdout.splitlines() if ": /dev/" in l]
         # what the binary says it selected
         sel_all, in_list = [], False
         for line in a.stderr.splitlines():
@@ -837,10 +846,14 @@ def c16_e2e(res, wd, cases, replay_file=None):
             skipped = set(re.findall(r"^Skipping (\S+) ", b.stderr, re.M))
             sel_dev = [n for n in nodes if n not in skipped]
             n_dev = re.search(r"Remapping (\d+) devices", b.stderr)
-            panicked = panicked or "panicked" in b.stderr
+            panicked = panicked or "panicked" in b.stderr or "panicked" in b2.stderr or "panicked" in lk.stderr
+            skipped2 = set(re.findall(r"^Skipping (\S+) ", b2.stderr, re.M))
+            sel_alt = [n for n, a2 in zip(nodes, alt) if a2 not in skipped2]
+            n_alt = re.search(r"Remapping (\d+) devices", b2.stderr)
         rows.append({"id": c["id"], "entries": c["entries"], "excludes": c["excludes"], "nodes": [{"sysfs": sp, "node": n} for sp, n in zip(sysfs, nodes)],
                      "sel_all": sel_all, "n_all": int(n_all.group(1)) if n_all else -1,
-                     "sel_dev": sel_dev, "n_dev": int(n_dev.group(1)) if n_dev else -1, "panicked": panicked})
+                     "sel_dev": sel_dev, "n_dev": int(n_dev.group(1)) if n_dev else -1, "panicked": panicked,
+                     "sel_alt": sel_alt if b is not None else [], "n_alt": (int(n_alt.group(1)) if n_alt else -1) if b is not None else -1, "listed": listed})
         shutil.rmtree(d, ignore_errors=True)
     rp = os.path.join(wd, "e2e_results.ndjson")
     write_ndjson(rp, rows)
